@@ -70,7 +70,7 @@ TFinal == /\ Step("final") /\ UNCHANGED <<vs, cent, asg, it, mi, pc, conv, k0>>
              ELSE LET kk == Min2(Ev.k, Ev.n) IN
                   /\ Len(Ev.cent) = kk /\ Len(Ev.asg) = Ev.n
                   /\ \A c \in 1..kk : /\ Len(Ev.cent[c]) = Len(Ev.lo)
-                                      /\ \A j \in 1..Len(Ev.lo) : Ev.lo[j] - Ev.eps <= Ev.cent[c][j] /\ Ev.cent[c][j] <= Ev.hi[j] + Ev.eps   \* finite, inside the box
+                                      /\ \A j \in 1..Len(Ev.lo) : Ev.lo[j] - Ev.epsb <= Ev.cent[c][j] /\ Ev.cent[c][j] <= Ev.hi[j] + Ev.epsb   \* finite, inside the box
                   /\ \A i \in 1..Ev.n : Ev.asg[i] \in 0..(kk - 1)
                   /\ (Ev.conv => \A i \in 1..Ev.n, c \in 1..kk : Ev.dist[i][Ev.asg[i] + 1] <= Ev.dist[i][c] + Ev.eps)
 \* training an index twice on the same data gives search-identical indexes
